@@ -283,6 +283,11 @@ Theorem C06_statement_failure_is_turn_failure : forall fi s s1 e l s2,
   run_next_statement fi s = (Err e l, s2).
 Proof. exact turn_fails_with_statement. Qed.
 
+Theorem C06_turn_success_is_statement_success : forall fi s s1 s',
+  has_next_token (set_state Running s) = (Ok true, s1) -> run_next_statement fi s = (Ok tt, s') ->
+  exists s2, evaluate_statement fi 0 s1 = (Ok tt, s2).
+Proof. exact turn_ok_statement_ok. Qed.
+
 (* what an accepted expression is made of: operands, operators, parentheses, commas *)
 Theorem C06_expression_tokens : forall f n st t st',
   analyze_expression f n st = (Ok t, st') -> PL exprtok (fst st) (fst st').
@@ -542,4 +547,5 @@ Print Assumptions C06_straight_line_complete.
 Print Assumptions C06_straight_line_error_fails.
 Print Assumptions C06_reported_error_means_failure.
 Print Assumptions C06_statement_failure_is_turn_failure.
+Print Assumptions C06_turn_success_is_statement_success.
 Print Assumptions C06_expression_tokens.
